@@ -93,6 +93,7 @@ void f_stat (void) {
   char *path;
   array_t *v;
   object_t *ob;
+  int flags = (int) sp->u.number;	/* read it now: the master apply below reuses the popped stack slot */
 
   path = check_valid_path ((--sp)->u.string, current_object, "stat", 0);
   if (!path)
@@ -123,7 +124,7 @@ void f_stat (void) {
           return;
         }
     }
-  v = get_dir (sp->u.string, (int)(sp + 1)->u.number);
+  v = get_dir (sp->u.string, flags);
   free_string_svalue (sp);
   if (v)
     {
